@@ -81,6 +81,8 @@ func (l *Lowerer) stmt(s ast.Stmt, label string) {
 				if i < len(vs.Values) {
 					v, vt := l.tr(vs.Values[i])
 					l.defineVar(nm, v, vt)
+				} else if l.isBoxed(obj) {
+					l.declareBoxed(obj)
 				} else {
 					pl := &place{kind: pLocal, name: l.localVar(obj), typ: obj.Type()}
 					l.store(pl, l.p.zeroOf(obj.Type()))
@@ -154,6 +156,16 @@ func (l *Lowerer) defineVar(nm *ast.Ident, v *Term, vt types.Type) {
 		obj, _ = l.info().Uses[nm].(*types.Var)
 	}
 	if obj == nil {
+		return
+	}
+	if l.isBoxed(obj) {
+		var pl *place
+		if _, isDef := l.info().Defs[nm]; isDef {
+			pl = l.declareBoxed(obj)
+		} else {
+			pl = l.boxedPlace(obj)
+		}
+		l.store(pl, v)
 		return
 	}
 	pl := &place{kind: pLocal, name: l.localVar(obj), typ: obj.Type()}
@@ -349,7 +361,22 @@ func (l *Lowerer) sameTop(fr *frame) bool {
 	return fi == top.fi || fr.fi == top.fi
 }
 
+func (l *Lowerer) autoInv() *Clause {
+	top := l.fr
+	for top.parent != nil {
+		top = top.parent
+	}
+	if top.contract != nil && top.contract.AutoInv != nil {
+		return top.contract.AutoInv
+	}
+	return nil
+}
+
 func (l *Lowerer) invClauses(ls *LoopSpec, hidden map[string]envEntry, kind string, ord int, node ast.Node) {
+	if c := l.autoInv(); c != nil {
+		t := l.specTerm(c, hidden)
+		l.assertOb(kind, fmt.Sprintf("loop%d.state", ord), c.Src, node, t, l.curProps)
+	}
 	if ls == nil {
 		return
 	}
@@ -371,6 +398,9 @@ func clausePropsOr(fr *frame, c *Clause, def []string) []string {
 }
 
 func (l *Lowerer) invAssume(ls *LoopSpec, hidden map[string]envEntry) {
+	if c := l.autoInv(); c != nil {
+		l.assume(l.specTerm(c, hidden))
+	}
 	if ls == nil {
 		return
 	}
@@ -425,10 +455,22 @@ func (l *Lowerer) forStmt(x *ast.ForStmt, label string) {
 		l.stmt(x.Init, "")
 	}
 	head, post, exit, li, ord, ls := l.beginLoop(label, nil)
+	// counted loops: `for i := e; ...; i++` where the body never assigns i keeps i >= its initial value
+	counter, counterInit := l.countedLoop(x)
+	var cinv *Term
+	if counter != "" {
+		iv := l.tmp("Int")
+		l.assign(iv, "Int", counterInit)
+		cinv = Le(V(iv, "Int"), V(counter, "Int"))
+		l.assertOb("inv-entry", fmt.Sprintf("loop%d.counter", ord), "counter stays >= its initial value", x, cinv, nil)
+	}
 	l.invClauses(ls, nil, "inv-entry", ord, x)
 	l.jump(head)
 	l.cur = head
 	li.HavocAt = 0
+	if cinv != nil {
+		l.assume(cinv)
+	}
 	l.invAssume(ls, nil)
 	decVar := l.decreasesStart(ls, nil)
 	body := l.f.newBlock("body")
@@ -444,12 +486,76 @@ func (l *Lowerer) forStmt(x *ast.ForStmt, label string) {
 	if x.Post != nil {
 		l.stmt(x.Post, "")
 	}
+	if cinv != nil {
+		l.assertOb("inv-preserve", fmt.Sprintf("loop%d.counter", ord), "counter stays >= its initial value", x, cinv, nil)
+	}
 	l.invClauses(ls, nil, "inv-preserve", ord, x)
 	l.decreasesCheck(ls, nil, decVar, ord, x)
 	li.LastBody = len(l.f.Blocks) - 1
 	l.cur = nil
 	l.tg = l.tg.prev
 	l.cur = exit
+}
+
+// countedLoop recognises `for i := init; cond; i++ / i += c` with no other assignment to i in the body.
+func (l *Lowerer) countedLoop(x *ast.ForStmt) (string, *Term) {
+	as, ok := x.Init.(*ast.AssignStmt)
+	if !ok || len(as.Lhs) != 1 || len(as.Rhs) != 1 {
+		return "", nil
+	}
+	id, ok := as.Lhs[0].(*ast.Ident)
+	if !ok {
+		return "", nil
+	}
+	obj, _ := l.info().ObjectOf(id).(*types.Var)
+	if obj == nil || l.p.sortOf(obj.Type()) != "Int" {
+		return "", nil
+	}
+	switch p := x.Post.(type) {
+	case *ast.IncDecStmt:
+		pid, ok := p.X.(*ast.Ident)
+		if !ok || l.info().ObjectOf(pid) != obj || p.Tok != token.INC {
+			return "", nil
+		}
+	default:
+		return "", nil
+	}
+	assigned := false
+	ast.Inspect(x.Body, func(n ast.Node) bool {
+		switch s := n.(type) {
+		case *ast.AssignStmt:
+			for _, e := range s.Lhs {
+				if eid, ok := ast.Unparen(e).(*ast.Ident); ok && l.info().ObjectOf(eid) == obj {
+					assigned = true
+				}
+			}
+		case *ast.IncDecStmt:
+			if eid, ok := ast.Unparen(s.X).(*ast.Ident); ok && l.info().ObjectOf(eid) == obj {
+				assigned = true
+			}
+		case *ast.UnaryExpr:
+			if s.Op == token.AND {
+				if eid, ok := ast.Unparen(s.X).(*ast.Ident); ok && l.info().ObjectOf(eid) == obj {
+					assigned = true
+				}
+			}
+		case *ast.RangeStmt:
+			for _, e := range []ast.Expr{s.Key, s.Value} {
+				if e == nil {
+					continue
+				}
+				if eid, ok := ast.Unparen(e).(*ast.Ident); ok && l.info().ObjectOf(eid) == obj {
+					assigned = true
+				}
+			}
+		}
+		return true
+	})
+	if assigned {
+		return "", nil
+	}
+	name := l.localVar(obj)
+	return name, V(name, "Int")
 }
 
 func (l *Lowerer) decreasesStart(ls *LoopSpec, hidden map[string]envEntry) string {
